@@ -220,13 +220,34 @@ class ContainScenario(ColliderScenario):
         elif T == "mesh":
             V, Tr = SH.MESHES[s["mesh"]]
             r = f(pts, pose, cx.arr(V), np.array(Tr, dtype=int))
-        return list(r)
+        out = list(r)
+        # the library's own point_to_<shape> distance for the symbolic point (where one exists in closed form)
+        import distance3d.distance as D
+        p = cx.arr(inp["pts"][inp["sym_index"]])
+        dist = None
+        if T == "cylinder":
+            dist = D.point_to_cylinder(p, pose, s["radius"], s["length"])[0]
+        elif T == "disk":
+            dist = D.point_to_disk(p, cx.arr(t), s["radius"], cx.arr([R[0][2], R[1][2], R[2][2]]))[0]
+        elif T == "box":
+            dist = D.point_to_box(p, pose, cx.arr(s["size"]))[0]
+        self._dist = dist
+        return out + ([dist] if dist is not None else [])
 
     def check(self, cx, inp, out, ob):
         R, t = inp["R"], inp["t"]
         L = self.L
         delta = 1e-9 * L
-        ob.require("batch_length", exact=(len(out) == len(inp["pts"])))
+        n = len(inp["pts"])
+        dist = out[n] if len(out) > n else None
+        out = out[:n]
+        ob.require("batch_length", exact=(len(out) == n))
+        if dist is not None:
+            r = out[inp["sym_index"]]
+            q = SH.to_local(R, t, inp["pts"][inp["sym_index"]])
+            ob.require("agrees_with_point_distance",
+                       exact=AND(IMPLIES(r, dist == 0), IMPLIES(NOT(r), dist > 0)),
+                       tol=AND(IMPLIES(r, dist <= delta), IMPLIES(NOT(r), OR(dist > 0, self.shape.member(q, delta)))))
         for i, p in enumerate(inp["pts"]):
             q = SH.to_local(R, t, p)
             r = out[i]
